@@ -29,6 +29,8 @@ def _as_obj(a):
             r = np.asarray(a)
             if r.dtype != object:
                 return r
+            if r.ndim > 1:          # a regular nested list with symbolic cells: keep its shape
+                return r
         except Exception:
             pass
         o = np.empty(len(a), dtype=object)
